@@ -103,6 +103,38 @@ class Report:
         self.obligations.append(ob)
         return ob
 
+    def merge(self, other: "Report"):
+        """fold the results of a worker's report into this one"""
+        self.obligations.extend(other.obligations)
+        for k in other.known_lines:
+            if k not in self.known_lines:
+                self.known_lines.append(k)
+        self.functions.update(other.functions)
+        for t in other.trusted:
+            if t not in self.trusted:
+                self.trusted.append(t)
+        for t in other.assumptions:
+            if t not in self.assumptions:
+                self.assumptions.append(t)
+        self.bounded.extend(other.bounded)
+        self.crosscheck["samples"] += other.crosscheck["samples"]
+        self.crosscheck["disagreements"] += other.crosscheck["disagreements"]
+        if "first" in other.crosscheck and "first" not in self.crosscheck:
+            self.crosscheck["first"] = other.crosscheck["first"]
+        for k, v in other.extra.items():
+            if isinstance(v, int) and isinstance(self.extra.get(k, 0), int):
+                self.extra[k] = self.extra.get(k, 0) + v
+            elif isinstance(v, dict) and isinstance(self.extra.get(k), dict):
+                for kk, vv in v.items():
+                    if isinstance(vv, int):
+                        self.extra[k][kk] = self.extra[k].get(kk, 0) + vv
+                    elif isinstance(vv, list):
+                        self.extra[k].setdefault(kk, []).extend(vv)
+            else:
+                self.extra.setdefault(k, v)
+        if other.crash and not self.crash:
+            self.crash = other.crash
+
     def fuc(self, qualname, where, h):
         self.functions[qualname] = {"where": where, "hash": h}
 
@@ -225,3 +257,38 @@ class Report:
               f"failed-unrestricted(known)={len(explained)} violations={len(self.violations)} "
               f"undecided={len(undecided)} wall={wall:.1f}s exit={rc}")
         return rc
+
+
+# ---- process pool ----------------------------------------------------------------------------------------------------
+_TASKS = []
+
+
+def _run_task(i):
+    import traceback
+    try:
+        return _TASKS[i]()
+    except BaseException as e:  # noqa
+        r = Report("?", "quick", 0)
+        r.crash = f"worker task {i} crashed: {type(e).__name__}: {e}\n{traceback.format_exc()[-1500:]}"
+        return r
+
+
+def run_parallel(tasks, procs=None):
+    """tasks: callables returning a Report (executed in forked workers so closures are inherited); returns the Reports"""
+    import multiprocessing as mp
+    global _TASKS
+    if not tasks:
+        return []
+    procs = procs or min(len(tasks), max(1, (os.cpu_count() or 2) - 1))
+    if procs <= 1 or os.environ.get("PYVC_SERIAL"):
+        return [t() for t in tasks]
+    _TASKS = tasks
+    with mp.get_context("fork").Pool(procs) as pool:
+        out = pool.map(_run_task, range(len(tasks)), chunksize=1)
+    _TASKS = []
+    for r in out:
+        for o in r.obligations:
+            for attr in ("_bad",):
+                if hasattr(o, attr):
+                    delattr(o, attr)
+    return out
